@@ -40,6 +40,7 @@ class Ctx:
         except OSError:
             self._pnames = {}
         _P.EXPANDER = lambda d, keep, facts=facts: _I.expand(facts, d, 0, keep)
+        _P.LIFTER = _I.lift_phi
 
     # ---------------------------------------------------------------- anchors
     def fn(self, name, where=None, rule='ANCHOR'):
